@@ -52,6 +52,9 @@ def run(ctx: Ctx):
 
     public_values_assembled(ctx, "public-assembled", "_Slice", ("column_proportions", "row_proportions", "table_proportions", "column_percentages", "row_percentages", "table_percentages"))
     public_values_assembled(ctx, "public-assembled", "_Strand", ("table_proportions", "table_percentages"))
+    from .common import explicit_nan_criterion
+
+    explicit_nan_criterion(ctx, "proportion-nan")
 
 
 def table_proportions(ctx: Ctx):
